@@ -87,6 +87,15 @@ def make_case(ctx: Ctx, backend: str, i: int, opts) -> Optional[Dict[str, Any]]:
                                       (f"((e.{C}('A').Count() > 1) if e.{C}('B').Count() > 0 else (e.{C}('A').Count() > 2))", "scalar"),
                                       (f"e.{C}('A').Select(lambda q: q.hits().Select(lambda h: h if h > 2 else 0 - h))", "list2"),
                                       (f"e.{C}('A').Select(lambda q: q.isGood() if q.pt() > 20.0 else q.hasLead())", "list")]) + (None,))
+        elif 0.74 < r <= 0.79:
+            # Range produces integers, however its bounds are typed (the README's CMS example bounds it by a method without a
+            # declared type, which is assumed double)
+            if rows == "object":
+                cols.append(R.choice([("Range(0, j.eta())", "list", "int"), ("Range(0, j.pt()).Select(lambda i: i * 2)", "list", "int"), ("Range(0, j.nTrk()).Select(lambda i: i + 1)", "list", "int"),
+                                      ("Range(0, j.pt() / 16).Count()", "scalar", "int")]))
+            else:
+                cols.append(R.choice([(f"e.{C}('A').Select(lambda q: Range(0, q.eta()))", "list2", "int"), (f"Range(0, e.{C}('A').Count() * 1.0)", "list", "int"),
+                                      (f"e.{C}('A').Select(lambda q: Range(1, q.pt() / 8).Select(lambda i: i * i))", "list2", "int")]))
         elif r > 0.79:
             # integer operands whose result is not an integer (a power with an exponent negative at run time, a real division):
             # the column has to hold the value the expression has
